@@ -95,7 +95,7 @@ def search(ctx):
             a = _flat_scalar(hg)[perm]
             b = hp_.values
             dev = float(np.abs(a - b).max())
-            if dev > tol * max(1.0, float(np.abs(a).max())):
+            if not (dev <= tol * max(1.0, float(np.abs(a).max()))):
                 ctx.violation("C07:grid-vs-points:%s" % name, "grid and explicit point list disagree (max dev %.3g, %s)" % (dev, name),
                               dict(kind="grid-points", **info))
             # random pixel subset commutes with the forward calculation
@@ -108,7 +108,7 @@ def search(ctx):
                 hs = calc_holo(sub, sc, illum_polarization=pol, theory=th, **OPT)
                 full_sub = make_subset_data(hg, pixels=npix, seed=seed)
                 dev = float(np.abs(hs.values - full_sub.values).max())
-                if dev > tol * max(1.0, float(np.abs(hs.values).max())):
+                if not (dev <= tol * max(1.0, float(np.abs(hs.values).max()))):
                     ctx.violation("C07:subset-commutes:%s" % name, "selecting pixels does not commute with the forward calculation (dev %.3g)" % dev,
                                   dict(kind="subset", pixels=npix, seed=seed, **info))
                 if len(set(map(int, sel))) != npix or not all(0 <= v < nx * ny for v in sel):
@@ -134,7 +134,7 @@ def search(ctx):
                     hc = calc_holo(detc, sc, illum_polarization=pol, theory=th, **OPT)
                     want = subimage(hg.transpose(*det.dims), (cx, cy), s)
                     dev = float(np.abs(hc.transpose(*det.dims).values - want.values).max())
-                    if dev > tol * max(1.0, float(np.abs(want.values).max())):
+                    if not (dev <= tol * max(1.0, float(np.abs(want.values).max()))):
                         ctx.violation("C07:crop-commutes:%s" % name, "cropping does not commute with the forward calculation (dev %.3g)" % dev,
                                       dict(kind="crop", center=[cx, cy], **info))
             # shifted origin: a grid with an offset equals the explicit points
@@ -144,7 +144,7 @@ def search(ctx):
             p2 = T.flat_points(det2)
             h2p = calc_holo(detector_points(x=p2[:, 0], y=p2[:, 1], z=p2[:, 2]), sc, illum_polarization=pol, theory=th, **OPT)
             dev = float(np.abs(_flat_scalar(h2) - h2p.values).max())
-            if dev > tol * max(1.0, float(np.abs(h2p.values).max())):
+            if not (dev <= tol * max(1.0, float(np.abs(h2p.values).max()))):
                 ctx.violation("C07:origin-shift:%s" % name, "grid with shifted origin disagrees with its explicit points (dev %.3g)" % dev,
                               dict(kind="origin", offset=off.tolist(), **info))
             if (_snapshot(det), repr(sc)) != snap:
